@@ -62,14 +62,25 @@ mutual
   inductive Ty
     | prim (p : Prim)
     | str
-    | enum (holder : Prim) (labels : List Int)
+    /-- enumeration: holder type, literals, extensibility of the type (no DHEADER, no influence on the encoding) -/
+    | enum (holder : Prim) (labels : List Int) (ext : Ext)
+    /-- wide string (STRING16); a value is the list of its UTF-16 code units -/
+    | wstr
     | seq (elem : Ty)
     | arr (elem : Ty) (n : Nat)
     | struct (ext : Ext) (ms : Ms)
+    /-- FINAL union: discriminator kind, branches. A value is `.struct [.num disc, .num branchId, value]`, or
+        `.struct [.num disc]` when the discriminator selects no branch. (Appendable and mutable unions are not
+        modelled: the driver answers `unmodelled`, see notes/xcdr.md Follow-up 2.) -/
+    | union (disc : Prim) (bs : Bs)
   /-- member list: id, optional, must-understand, type -/
   inductive Ms
     | nil
     | cons (id : Nat) (opt : Bool) (mu : Bool) (t : Ty) (rest : Ms)
+  /-- branches of a union: member id, case labels, default branch?, type -/
+  inductive Bs
+    | nil
+    | cons (id : Nat) (labels : List Int) (dflt : Bool) (t : Ty) (rest : Bs)
 end
 
 /-- values; `list` = sequence or array, `struct` = members in declaration order, `absent` = member without value -/
@@ -81,6 +92,48 @@ inductive Val
   | absent
 
 instance : Inhabited Val := ⟨.absent⟩
+
+/-! ### which branch of a union -/
+/-- index of the first branch with this member id (`DynamicData::get_descriptor(member_id)`) -/
+def Bs.firstIdx (id : Nat) : Bs → Option Nat
+  | .nil => none
+  | .cons id' _ _ _ r => if id' == id then some 0 else (Bs.firstIdx id r).map (· + 1)
+
+/-- index of the first branch with the label `x` -/
+def Bs.explicitIdx (x : Int) : Bs → Option Nat
+  | .nil => none
+  | .cons _ ls _ _ r => if ls.contains x then some 0 else (Bs.explicitIdx x r).map (· + 1)
+
+/-- index of the LAST branch marked default (`default_member = Some(member)` is overwritten in the loop) -/
+def Bs.lastDefault : Bs → Option Nat
+  | .nil => none
+  | .cons _ _ dflt _ r =>
+    match Bs.lastDefault r with
+    | some j => some (j + 1)
+    | none => if dflt then some 0 else none
+
+/-- `deserialize_funion_type` (deserializer.rs:1197): the first branch whose labels contain the discriminator, else
+    the default branch, else none (`Err(InvalidData)`) -/
+def Bs.selIdx (x : Int) (bs : Bs) : Option Nat :=
+  match bs.explicitIdx x with
+  | some i => some i
+  | none => bs.lastDefault
+
+def Bs.idAt : Bs → Nat → Option Nat
+  | .nil, _ => none
+  | .cons id _ _ _ _, 0 => some id
+  | .cons _ _ _ _ r, n + 1 => r.idAt n
+
+/-- `get_discriminator_id_as_i32` (deserializer.rs:175): the six integer kinds it accepts -/
+def discOk (p : Prim) : Bool := p == .u8 || p == .i8 || p == .u16 || p == .i16 || p == .i32 || p == .u32
+
+/-- the discriminator value as `i32` (`*x as i32`: sign extension for the signed kinds, wrap for u32) -/
+def discI32 (p : Prim) (n : Nat) : Int :=
+  match p with
+  | .i8 => if n < 2 ^ 7 then (n : Int) else (n : Int) - 2 ^ 8
+  | .i16 => if n < 2 ^ 15 then (n : Int) else (n : Int) - 2 ^ 16
+  | .i32 | .u32 => if n < 2 ^ 31 then (n : Int) else (n : Int) - 2 ^ 32
+  | _ => (n : Int)
 
 def Ms.length : Ms → Nat
   | .nil => 0
@@ -173,6 +226,11 @@ def wStr (ver : Ver) (e : Endian) (bs : Bytes) (pos : Nat) : W :=
   let h := wPrim ver e .u32 ((bs.length + 1) % 2 ^ 32) pos
   (h.1 ++ bs ++ [0], h.2 + bs.length + 1)
 
+/-- the code unit of a wide-string element -/
+def Val.unit : Val → Nat
+  | .num n => n
+  | _ => 0
+
 /-- `{ O[i] : O.element_type }*` (serializer.rs:245) -/
 def wList (f : Val → Nat → W) : List Val → Nat → W
   | [], pos => ([], pos)
@@ -180,6 +238,13 @@ def wList (f : Val → Nat → W) : List Val → Nat → W
     let a := f v pos
     let b := wList f vs a.2
     (a.1 ++ b.1, b.2)
+
+/-- `serialize_wstring_type` (serializer.rs:406): u32 count of UTF-16 units + 1, the units as u16, a zero unit -/
+def wWStr (ver : Ver) (e : Endian) (us : List Val) (pos : Nat) : W :=
+  let h := wPrim ver e .u32 ((us.length + 1) % 2 ^ 32) pos
+  let b := wList (fun v p => wPrim ver e .u16 v.unit p) us h.2
+  let t := wPrim ver e .u16 0 b.2
+  (h.1 ++ b.1 ++ t.1, t.2)
 
 /-- `{ O.length : UInt32 } { O[i] : O.element_type }*` (serializer.rs:463, 767, 949); `f` serializes one element -/
 def wSeqBody (ver : Ver) (e : Endian) (f : Val → Nat → W) (vs : List Val) (pos : Nat) : W :=
@@ -285,7 +350,8 @@ mutual
   def ser (cfg : Cfg) (ver : Ver) (e : Endian) : Ty → Val → Nat → W
     | .prim p, .num n, pos => wPrim ver e p n pos
     | .str, .str bs, pos => wStr ver e bs pos
-    | .enum h _, .num n, pos => wPrim ver e h n pos
+    | .enum h _ _, .num n, pos => wPrim ver e h n pos
+    | .wstr, .list us, pos => wWStr ver e us pos
     | .seq el, .list vs, pos =>
       -- rules (11) (12) (13): serializer.rs:462, 943, 762
       if el.isPrim || ver == .v1 then wSeqBody ver e (ser cfg ver e el) vs pos
@@ -302,7 +368,20 @@ mutual
       -- rules (23) (21): serializer.rs:796, 985
       let cs := sortChunks (chunks cfg ver e ms fs)
       if ver == .v1 then emit1 cfg e cs pos else wDh ver e (emit2 e cs) pos
+    -- rule (26) `serialize_funion_type` (serializer.rs:509): discriminator, then the member at index 1 of the data
+    | .union disc bs, .struct fs, pos =>
+      match fs with
+      | [.num d, .num id, v] =>
+        let a := wPrim ver e disc d pos
+        let b := serB cfg ver e bs id v a.2
+        (a.1 ++ b.1, b.2)
+      | [.num d] => wPrim ver e disc d pos
+      | _ => ([], pos)
     | _, _, pos => ([], pos)
+  /-- the selected member of a union value: serialized with the type of the first branch that has its member id -/
+  def serB (cfg : Cfg) (ver : Ver) (e : Endian) : Bs → Nat → Val → Nat → W
+    | .cons id' _ _ t r, id, v, pos => if id' == id then ser cfg ver e t v pos else serB cfg ver e r id v pos
+    | .nil, _, _, pos => ([], pos)
   /-- rule (17) `serialize_fstruct_type` (serializer.rs:475) with (18) (19) (20) -/
   def serF (cfg : Cfg) (ver : Ver) (e : Endian) : Ms → List Val → Nat → W
     | .cons id opt mu t rest, f :: fs, pos =>
@@ -353,11 +432,20 @@ mutual
   def shapeOk : Ty → Val → Bool
     | .prim p, .num n => n < 2 ^ (8 * p.size) && (p != .bool || n ≤ 1)
     | .str, .str _ => true
-    | .enum h _, .num n => n < 2 ^ (8 * h.size)
+    | .enum h _ _, .num n => n < 2 ^ (8 * h.size)
+    | .wstr, .list us => us.all fun v => match v with | .num n => n < 2 ^ 16 | _ => false
     | .seq el, .list vs => vs.all (shapeOk el)
     | .arr el n, .list vs => vs.length == n && vs.all (shapeOk el)
     | .struct x ms, .struct fs => shapeOkMs (x == .mutable) ms fs
+    | .union disc bs, .struct fs =>
+      match fs with
+      | [.num d, .num id, v] => d < 2 ^ (8 * disc.size) && (disc != .bool || d ≤ 1) && shapeOkB bs id v
+      | [.num d] => d < 2 ^ (8 * disc.size) && (disc != .bool || d ≤ 1)
+      | _ => false
     | _, _ => false
+  def shapeOkB : Bs → Nat → Val → Bool
+    | .cons id' _ _ t r, id, v => if id' == id then (id != 0 && shapeOk t v) else shapeOkB r id v
+    | .nil, _, _ => false
   def shapeOkMs (mt : Bool) : Ms → List Val → Bool
     | .nil, [] => true
     | .cons _ opt _ t rest, f :: fs =>
@@ -373,7 +461,14 @@ mutual
     | .seq el, .list vs => vs.any (serPanics1 el)
     | .arr el _, .list vs => vs.any (serPanics1 el)
     | .struct x ms, .struct fs => serPanics1Ms (x == .mutable) ms fs
+    | .union _ bs, .struct fs =>
+      match fs with
+      | [.num _, .num id, v] => serPanics1B bs id v
+      | _ => false
     | _, _ => false
+  def serPanics1B : Bs → Nat → Val → Bool
+    | .cons id' _ _ t r, id, v => if id' == id then serPanics1 t v else serPanics1B r id v
+    | .nil, _, _ => false
   def serPanics1Ms (mt : Bool) : Ms → List Val → Bool
     | .cons id opt mu t rest, f :: fs =>
       (match f with
@@ -482,6 +577,36 @@ def dStr (ver : Ver) (e : Endian) (s : St) : Res Val :=
   (rBytes 1 s2).bind fun _ s3 =>
     if utf8Valid bs then .ok (.str bs) s3 else .err .invalidData s3
 
+/-- `String::from_utf16` accepts exactly the sequences without unpaired surrogates -/
+def utf16Valid : List Nat → Bool
+  | [] => true
+  | u :: rest =>
+    if 0xD800 ≤ u && u ≤ 0xDBFF then
+      (match rest with
+       | l :: r => 0xDC00 ≤ l && l ≤ 0xDFFF && utf16Valid r
+       | [] => false)
+    else if 0xDC00 ≤ u && u ≤ 0xDFFF then false
+    else utf16Valid rest
+
+/-- `for _ in 0..num_units { units.push(deserialize::<u16>()?) }` -/
+def dUnits (ver : Ver) (e : Endian) : Nat → St → Res (List Val)
+  | 0, s => .ok [] s
+  | n + 1, s =>
+    (dPrim ver e .u16 s).bind fun u s1 =>
+    (dUnits ver e n s1).bind fun us s2 => .ok (.num u :: us) s2
+
+/-- `deserialize_wstring_type` (deserializer.rs:1030): a length of 0 is the empty string (nothing else is read);
+    otherwise `length - 1` units, the terminator (must be 0), `String::from_utf16`.
+    `Vec::with_capacity(num_units.min(remaining))` never exceeds the input length. -/
+def dWStr (ver : Ver) (e : Endian) (s : St) : Res Val :=
+  (dPrim ver e .u32 s).bind fun len s1 =>
+    if len == 0 then .ok (.list []) s1
+    else
+      (dUnits ver e (len - 1) s1).bind fun us s2 =>
+      (dPrim ver e .u16 s2).bind fun nul s3 =>
+        if nul != 0 then .err .invalidData s3
+        else if utf16Valid (us.map Val.unit) then .ok (.list us) s3 else .err .invalidData s3
+
 /-- a single allocation request above this many bytes counts as unbounded (harness: `ALLOC-LIMIT`) -/
 def ALLOC_LIMIT : Nat := 2 ^ 24
 
@@ -524,8 +649,10 @@ def dElems (cfg : Cfg) (ver : Ver) (e : Endian) (el : Ty) (f : St → Res Val) (
   | .prim .u8 => (rBytes len s).map fun bs => .list (bs.map fun b => .num b.toNat)
   | .prim p => dVec cfg p.memSize f len s
   | .str => dVec cfg 24 f len s
-  | .enum _ _ => dVec cfg 48 f len s
+  | .enum _ _ _ => dVec cfg 48 f len s
+  | .wstr => dVec cfg 24 f len s
   | .struct _ _ => dVec cfg 48 f len s
+  | .union _ _ => dVec cfg 48 f len s
   | .seq _ => .panic .unsupported
   | .arr _ _ => .panic .unsupported
 
@@ -637,7 +764,8 @@ mutual
   def de (cfg : Cfg) (ver : Ver) (e : Endian) : Ty → St → Res Val
     | .prim p, s => (dPrim ver e p s).map .num
     | .str, s => dStr ver e s
-    | .enum h ls, s => dEnum ver e h ls s
+    | .enum h ls _, s => dEnum ver e h ls s
+    | .wstr, s => dWStr ver e s
     | .seq el, s =>
       -- rules (11) (13) (12): deserializer.rs:1075, 245, 443
       if el.isPrim || ver == .v1 then dSeqBody cfg ver e el (de cfg ver e el) s
@@ -646,6 +774,14 @@ mutual
       -- rules (8) (10) (9): deserializer.rs:1054, 224, 420
       if el.isPrim || ver == .v1 then dElems cfg ver e el (de cfg ver e el) n s
       else (dPrim ver e .u32 s).bind fun _ s0 => dElems cfg ver e el (de cfg ver e el) n s0
+    -- rule (26) `deserialize_funion_type` (deserializer.rs:1197)
+    | .union disc bs, s =>
+      (dPrim ver e disc s).bind fun d s1 =>
+        if !discOk disc then .err .invalidType s1
+        else
+          match bs.selIdx (discI32 disc d) with
+          | some i => deAt cfg ver e d bs i s1
+          | none => .err .invalidData s1
     | .struct .final ms, s => (deF cfg ver e false ms s).map .struct
     | .struct .appendable ms, s =>
       -- rules (29) (30): deserializer.rs:363, 560
@@ -668,6 +804,11 @@ mutual
       | .v2 =>
         if cfg.d47 then (dDelimited ver e (deM cfg ver e ms) s).map .struct
         else (dPrim ver e .u32 s).bind fun _ s0 => (deM cfg ver e ms s0).map .struct
+  /-- the selected branch (index `i`) of a union: `deserialize_fmember(member)`, stored under the member's id -/
+  def deAt (cfg : Cfg) (ver : Ver) (e : Endian) (d : Nat) : Bs → Nat → St → Res Val
+    | .nil, _, s => .err .invalidData s
+    | .cons id _ _ t _, 0, s => (de cfg ver e t s).map fun v => .struct [.num d, .num id, v]
+    | .cons _ _ _ _ r, n + 1, s => deAt cfg ver e d r n s
   /-- rule (17) `deserialize_fstruct_type` (deserializer.rs:1095): an appendable structure stops silently at the
       first member that reports `NotEnoughData` -/
   def deF (cfg : Cfg) (ver : Ver) (e : Endian) (app : Bool) : Ms → St → Res (List Val)
